@@ -90,6 +90,7 @@ class Chains:
         else:
             raise ValueError(layout)
         self.cov = None
+        self.cov_prob = 0.3 if layout == 'two_ens' else 0.0
         self.aligned = False
 
     def _chain_list(self, name):
@@ -138,7 +139,7 @@ class Chains:
             forms = {n: str(rng.choice(['list', 'ndarray', 'native'])) for n in tab}
             oo = gen.table_to_obs(PE, tab, forms)
             o = oo if o is None else o + oo
-        if self.layout == 'two_ens' and rng.random() < 0.15:
+        if rng.random() < self.cov_prob:
             if self.cov is None:
                 self.cov = PE.cov_Obs(0.0, 0.02 ** 2, 'cvM')
             o = o + float(rng.uniform(0.3, 1.5)) * self.cov
@@ -201,7 +202,12 @@ def make_matrix(rng, chains, m0, entries, symmetric=False, force_first_cobs=None
             z = m0[i, j]
             if not cplx:
                 z = float(np.real(z))
-                if entries == 'mixed' and rng.random() < 0.3:
+                r_ = rng.random() if entries == 'mixed' else 1.0
+                if r_ < 0.1 and i != j:
+                    out[i, j] = 0.0                                      # exactly zero entry (plain number)
+                elif r_ < 0.18 and i != j:
+                    out[i, j] = 0.0 * chains.obs(1.0)                    # spectator: an observable multiplied by zero
+                elif r_ < 0.45:
                     out[i, j] = (int(round(z)) if abs(round(z) - z) < 0.3 and rng.random() < 0.5 else z)
                 else:
                     out[i, j] = chains.obs(z)
@@ -570,6 +576,9 @@ def case_matmul(ctx, rng, nfac, entries, layout):
         mutated_inputs(c, work, bt, 'matmul')
         if not require_array(c, got, (n, n), 'matmul', what, want_cobs=expect_complex):
             return
+        if SECOND_CALL[0]:
+            c.count('second_calls_with_the_same_argument_object')
+            c.require(any_digest(pe.linalg.matmul(*work)) == any_digest(got), 'matmul:second-call-with-the-same-argument-object-differs', {'what': what})
         if suspects:
             t = c.trial()
             tape = compare_product(t, got, descs, expect_complex, what)
@@ -592,18 +601,23 @@ def case_matmul(ctx, rng, nfac, entries, layout):
         c.sample({'op': 'matmul', 'factors': nfac, 'n': n, 'entries': entries, 'layout': layout, 'central': [central(d) for d in descs],
                   'result00': got[0, 0].real.value if is_cobs(got[0, 0]) else got[0, 0].value})
     run_with_diagnosis(ctx, ops, judge)
-    if n >= 2 and rng.random() < 0.3 and type(np.asarray(ops[0], dtype=object)[0, 0]) is not int:
+    if n >= 2 and rng.random() < 0.6 and type(np.asarray(ops[0], dtype=object)[0, 0]) is not int:
         history_check(ctx, rng, pe.linalg.matmul, ops, 'matmul', judge)
 
 
 # ------------------------------------------------------------------------------------------
 # I2 decompositions
-def square_case(ctx, rng, n, entries, layout, kind, symmetric=False):
+def square_case(ctx, rng, n, entries, layout, kind, symmetric=False, cov_prob=None):
     chains = Chains(rng, ctx.tier, layout)
+    if cov_prob is not None:
+        chains.cov_prob = cov_prob
     cplx = entries in ('CObs', 'cmixed')
     m0 = central_matrix(rng, kind, n, cplx=cplx)
     a = make_matrix(rng, chains, m0, entries, symmetric=symmetric)
     return chains, a
+
+
+SECOND_CALL = [False]
 
 
 def call(c, fn, a, op):
@@ -612,6 +626,10 @@ def call(c, fn, a, op):
     bt = types_of([work])
     res = fn(work)
     mutated_inputs(c, [work], bt, op)
+    if SECOND_CALL[0]:
+        # the same argument object once more (whatever the first call did to it, the caller's second use must give the same result)
+        c.count('second_calls_with_the_same_argument_object')
+        c.require(any_digest(fn(work)) == any_digest(res), op + ':second-call-with-the-same-argument-object-differs', {'op': op})
     return res
 
 
@@ -641,7 +659,7 @@ def case_inv(ctx, rng, n, entries, layout):
         nontrivial(c, tape, 'inv', n, [mc], chains)
         c.sample({'op': 'inv', 'n': n, 'entries': entries, 'layout': layout, 'central': mc, 'cond': cond})
     run_with_diagnosis(ctx, [a], judge)
-    if n >= 2 and rng.random() < 0.3 and type(a[0, 0]) is not int:
+    if n >= 2 and type(a[0, 0]) is not int:
         history_check(ctx, rng, pe.linalg.inv, [a], 'inv', judge)
 
 
@@ -680,9 +698,31 @@ def case_cholesky(ctx, rng, n, entries, layout):
     run_with_diagnosis(ctx, [a], judge)
 
 
+def tidy_residue(got, ref, snaps, gabs, rtol):
+    """rounding residue (<= rtol * sum_k gabs_k max|input_k|) on a chain / covariance input where the reference is exactly zero is
+    set to zero on both sides before the field-by-field comparison (which scales by the result itself)."""
+    g = sn(got)
+    g = dict(g, chains=dict(g['chains']), cov=dict(g['cov']))
+    for c in list(ref['chains']):
+        term = sum(ga * (float(np.max(np.abs(s_['chains'][c][1]))) if c in s_['chains'] and len(s_['chains'][c][1]) else 0.0) for s_, ga in zip(snaps, gabs))
+        if c in g['chains'] and term > 0:
+            rd, gd = ref['chains'][c][1], g['chains'][c][1]
+            if len(rd) == len(gd) and np.max(np.abs(rd), initial=0.0) <= rtol * term and np.max(np.abs(gd), initial=0.0) <= rtol * term:
+                ref['chains'][c] = (ref['chains'][c][0], np.zeros(len(rd)), ref['chains'][c][2])
+                g['chains'][c] = (g['chains'][c][0], np.zeros(len(gd)), g['chains'][c][2])
+    for n_ in list(ref['cov']):
+        term = sum(ga * float(np.max(np.abs(s_['cov'][n_][1]))) for s_, ga in zip(snaps, gabs) if n_ in s_['cov'])
+        if n_ in g['cov'] and term > 0:
+            rg, gg = np.asarray(ref['cov'][n_], dtype=float), g['cov'][n_][1]
+            if np.max(np.abs(rg), initial=0.0) <= rtol * term and np.max(np.abs(gg), initial=0.0) <= rtol * term:
+                ref['cov'][n_] = np.zeros(np.shape(rg))
+                g['cov'][n_] = (g['cov'][n_][0], np.zeros(np.shape(gg)))
+    return g
+
+
 def case_det(ctx, rng, n, entries, layout):
     pe = PE
-    chains, a = square_case(ctx, rng, n, entries, layout, 'general')
+    chains, a = square_case(ctx, rng, n, entries, layout, 'general', cov_prob=0.5)
     desc = describe(a)
     mc = np.real(central(desc))
     cond = float(np.linalg.cond(mc))
@@ -706,6 +746,11 @@ def case_det(ctx, rng, n, entries, layout):
         return float(np.linalg.det(np.real(numeric([desc], vals)[0])))
     ref, scale, _, vscale = matid.propagate_part(tape, d, 're', f)
     ctx.count('identity_residuals_judged')
+    # entries whose cofactor vanishes exactly (a zero entry opposite) have derivative 0 in the expansion and rounding residue of
+    # the size eps * cond * |det| in det * inv^T: residue is measured against |det| x (size of the inputs on that chain / covariance input)
+    gnat = [abs(d.v)] * len(tape.snaps)
+    scale = max(scale, dense.delta_scale(tape.snaps, gnat))
+    got = tidy_residue(got, ref, tape.snaps, gnat, 1e-11 * cond)
     compare_obs(ctx, got, ref, 'det:differs-from-cofactor-expansion', scale=scale, rtol=1e-11 * cond, vtol=1e-12 * cond, what=what,
                 value_scale=max(vscale, abs(ref['value']), 1e-300), rv_tol=1e-10 * cond)
     nontrivial(ctx, tape, 'det', n, [mc], chains)
@@ -768,7 +813,7 @@ def case_eigh(ctx, rng, op, n, entries, layout):
         if w is not None:
             c.sample({'op': op, 'n': n, 'entries': entries, 'layout': layout, 'central': mc, 'eigenvalues': [x.value for x in w]})
     run_with_diagnosis(ctx, [a], judge)
-    if n >= 2 and rng.random() < 0.3 and type(a[0, 0]) is not int:
+    if n >= 2 and type(a[0, 0]) is not int:
         history_check(ctx, rng, pe.linalg.eigh if op == 'eigh' else pe.linalg.eigv, [a], op, judge)
 
 
@@ -1013,7 +1058,7 @@ def case_jack(ctx, rng, nfac, entries, layout):
     tape = matid.Tape()
     [matid.matrix_duals(tape, d) for d in descs]
     nontrivial(ctx, tape, 'jack_matmul', dims, [central(d) for d in descs], chains)
-    if rng.random() < 0.3:
+    if True:
         history_check(ctx, rng, pe.linalg.jack_matmul, ops, 'jack_matmul', baseline=got)
     ctx.sample({'op': 'jack_matmul', 'dims': dims, 'entries': entries, 'layout': layout, 'N': nconf})
 
@@ -1163,14 +1208,14 @@ ALL_ENTRIES = ['Obs', 'mixed', 'CObs', 'cmixed']
 
 
 def plan(tier):
-    m = 1 if tier == 'quick' else 90
+    m = 1 if tier == 'quick' else 40
     p = []
     for nfac in (2, 3, 4):
         for ent in ALL_ENTRIES:
             for lay in LAYOUTS:
                 p.append(('matmul:%d:%s:%s' % (nfac, ent, lay), 4 * m))
     for n in (1, 2, 3, 4):
-        w = {1: 1, 2: 3, 3: 3, 4: 2}[n]
+        w = {1: 1, 2: 4, 3: 4, 4: 2}[n]
         for lay in LAYOUTS:
             for ent in ALL_ENTRIES:
                 p.append(('inv:%d:%s:%s' % (n, ent, lay), w * m))
@@ -1181,8 +1226,8 @@ def plan(tier):
     for (n, k) in shapes:
         for lay in LAYOUTS:
             for ent in REAL_ENTRIES:
-                p.append(('pinv:%d:%d:%s:%s' % (n, k, ent, lay), 1 * m))
-                p.append(('svd:%d:%d:%s:%s' % (n, k, ent, lay), 1 * m))
+                p.append(('pinv:%d:%d:%s:%s' % (n, k, ent, lay), (2 if n == k and n > 1 else 1) * m))
+                p.append(('svd:%d:%d:%s:%s' % (n, k, ent, lay), (2 if n == k and n > 1 else 1) * m))
     for nfac in (2, 3, 4):
         for ent in ('Obs', 'CObs'):
             for lay in ('jack', 'jack_irregular'):
@@ -1202,6 +1247,7 @@ def plan(tier):
 
 def run_case(ctx, kind, idx, rng):
     k = kind.split(':')
+    SECOND_CALL[0] = bool(rng.random() < 0.9)
     if k[0] == 'matmul':
         case_matmul(ctx, rng, int(k[1]), k[2], k[3])
     elif k[0] == 'inv':
